@@ -129,10 +129,11 @@ class EarlyStopping(CallbackBase):
         ) - self.value_getter(self.quantity_name)
 
     def _relative_change(self):
-        relative_change = self._change_in_metric() / self.value_getter(
-            self.quantity_name, -self.patience - 1
-        )
-        return abs(relative_change)
+        reference = self.value_getter(self.quantity_name, -self.patience - 1)
+        if reference == 0:
+            # no finite relative change with respect to zero: not converged
+            return float("inf")
+        return abs(self._change_in_metric() / reference)
 
     def _absolute_change(self):
         return abs(self._change_in_metric())
